@@ -120,6 +120,107 @@ theorem parameter_plain (env : Env) (F D : Nat) (p : PItem) (ty : DType) (hok : 
       · exact ((((((((hs1.butLog.trans hs2).trans hs3.butLog).trans hs4.butLog).trans hs5.butLog).trans hs6.butLog).trans hs7.butLog).trans
           hs8.butLog).trans hs9.butLog).trans (logged_butLog env w9 _)
 
+/-- **a parameter with a default argument `T ptr-ops name = value`**: the default is EXACTLY the tokens
+    written between the `=` and the `,` / `)` that ends the parameter, for every value of top-level
+    shape (`TopLevel [",", ")"]`: commas and parentheses only inside brackets) of any length -/
+theorem parameter_default (env : Env) (F D : Nat) (p : PItem) (ty : DType) (hok : p.OK ty)
+    (eq : Tok) (vals : List Tok) (sep : Tok) (w : World) (bmid bq bv b' : Buf)
+    (hy : Yields env.cfg w.buf p.toks bmid) (hte : tokenEofOk env.cfg bmid = .ok (some eq, bq)) (heq : eq.type = "=")
+    (hyv : Yields env.cfg bq vals bv) (htl : TopLevel [",", ")"] (vals.map (·.type)))
+    (htsep : tokenEofOk env.cfg bv = .ok (some sep, b'))
+    (hsep : sep.type = "," ∨ sep.type = ")") (hF : p.pairs.length + p.ops.length + 2 ≤ F + 1) (hFv : vals.length + 1 ≤ F) :
+    ∃ (w' : World) (t' : Tok),
+      interp env (parseParameterStep (F + 1) (core (F + 1) (D + 1 + 1)) none true ")") w =
+        (w', .ok (.mk ty (some p.name.value) (some (valueOf vals)) false, none)) ∧
+      SameButLog w w' ∧ tokenEofOk env.cfg w'.buf = .ok (some t', b') ∧ t'.type = sep.type ∧ t'.value = sep.value := by
+  obtain ⟨hft, hfv, hpairs, hopsH, hden, hnt⟩ := hok
+  simp only [identVal, Bool.and_eq_true, Bool.not_eq_true', bne_iff_ne, ne_eq] at hfv
+  obtain ⟨⟨⟨hpv, hnc⟩, _⟩, _⟩ := hfv
+  unfold PItem.toks at hy
+  cases hy with
+  | cons htf hrest =>
+    rename_i b1
+    obtain ⟨b0, hy0, hy1⟩ := Yields.split (xs := p.pairs.flatMap (fun q => [q.1, q.2])) (by simpa [List.append_assoc] using hrest)
+    obtain ⟨bops, hyops, hyn⟩ := Yields.split hy1
+    cases hyn with
+    | cons htn hnil =>
+      rename_i bn
+      have hbn : bn = bmid := by cases hnil; rfl
+      subst hbn
+      obtain ⟨w1, c1, hi1, hb1, hs1, hty1, hv1⟩ := step_token env w p.first b1 htf
+      -- the token after the type name: the first pointer operator, or the parameter name
+      obtain ⟨nx, bnx, hnx, hnxstop, hnxlt, hnxdc, hnxauto⟩ : ∃ (nx : Tok) (bnx : Buf), tokenEofOk env.cfg b0 = .ok (some nx, bnx) ∧
+          typeStop nx.type = true ∧ nx.type ≠ "<" ∧ nx.type ≠ "DBL_COLON" ∧ nx.type ≠ "auto" := by
+        cases hops : p.ops with
+        | nil =>
+          rw [hops] at hyops
+          cases hyops
+          exact ⟨p.name, bn, htn, by rw [hnt]; decide, by rw [hnt]; decide, by rw [hnt]; decide, by rw [hnt]; decide⟩
+        | cons o os =>
+          rw [hops] at hyops
+          cases hyops with
+          | cons hto _ =>
+            have ho : o.type = "*" := by simpa [opsHeadOk, hops] using hopsH
+            exact ⟨o, _, hto, by rw [ho]; decide, by rw [ho]; decide, by rw [ho]; decide, by rw [ho]; decide⟩
+      obtain ⟨w2, t2, hi2, hs2, ht2, hty2, hv2⟩ := parseType_plain env (F + 1) D false c1 p.pairs w1 b0 bnx nx (hty1.trans hft)
+        (by rw [hv1]; exact hpv) (by rw [hv1]; exact hnc) hpairs (by rw [hb1]; exact hy0) hnx (typeStop_end hnxstop) hnxlt hnxdc (by omega)
+      obtain ⟨w3, t3, hi3, hs3, ht3, hty3, hv3⟩ := step_tokenIf_miss env ["auto"] w2 t2 bnx ht2 (by rw [hty2]; simp [hnxauto])
+      -- the stream seen by the pointer chain: the pushed-back copy of `nx`, then as given
+      obtain ⟨ops', nm', bops', hy', hmapeq, hlen, htn', hnt', hnv'⟩ : ∃ (ops' : List Tok) (nm' : Tok) (bops' : Buf),
+          Yields env.cfg w3.buf ops' bops' ∧ ops'.map (·.type) = p.ops.map (·.type) ∧ ops'.length = p.ops.length ∧
+          tokenEofOk env.cfg bops' = .ok (some nm', bn) ∧ nm'.type = "NAME" ∧ nm'.value = p.name.value := by
+        cases hops : p.ops with
+        | nil =>
+          rw [hops] at hyops
+          cases hyops
+          rw [htn] at hnx
+          injection hnx with hnx; injection hnx with h1 h2
+          injection h1 with h1
+          subst h1; subst h2
+          exact ⟨[], t3, w3.buf, .nil _, rfl, rfl, ht3, by rw [hty3, hty2, hnt], by rw [hv3, hv2]⟩
+        | cons o os =>
+          rw [hops] at hyops
+          cases hyops with
+          | cons hto hrest2 =>
+            rw [hto] at hnx
+            injection hnx with hnx; injection hnx with h1 h2
+            injection h1 with h1
+            subst h1; subst h2
+            exact ⟨t3 :: os, p.name, bops, .cons ht3 hrest2, by simp [hty3, hty2], by simp, htn, hnt, rfl⟩
+      unfold PItem.base at hden
+      obtain ⟨w4, t4, hi4, hb4, htv4, hs4⟩ := cvPtr_chain env (core (F + 1) (D + 1)) false ops'
+        (.type (.mk (.name c1.value none :: p.pairs.map (fun q => .name q.2.value none)) none false) false false) ty (F + 1) w3 bops' bn nm' hy'
+        (by rw [hmapeq, hv1]; exact hden) htn' (by rw [hnt']; decide) (by rw [hlen]; omega)
+      have hty4 : t4.type = nm'.type := congrArg Prod.fst htv4
+      have hv4 : t4.value = nm'.value := congrArg Prod.snd htv4
+      have ht4 : tokenEofOk env.cfg w4.buf = .ok (some t4, bn) := by
+        rw [hb4]; exact tokenEofOk_returnToken env.cfg t4 bn (by rw [hty4]; exact tokenEofOk_not_discard htn')
+      have hfn := applyPtrOps_notFn _ _ ty rfl hden
+      rw [hv1] at hi2
+      rw [hv1] at hi4
+      obtain ⟨w5, t5, hi5, hs5, ht5, hty5, hv5⟩ := step_tokenIf_miss env ["ELLIPSIS"] w4 t4 bn ht4 (by rw [hty4, hnt']; decide)
+      obtain ⟨w6, t6, hi6, hs6, ht6, hty6, hv6⟩ := step_tokenIf_miss env ["("] w5 t5 bn ht5 (by rw [hty5, hty4, hnt']; decide)
+      obtain ⟨w7, c7, hi7, hb7, hs7, _, hv7⟩ := step_tokenIf_hit env ["NAME", "final"] w6 t6 bn ht6 (by rw [hty6, hty5, hty4, hnt']; decide)
+      obtain ⟨w8, t8, hi8, hs8, ht8, hty8, hv8⟩ := step_tokenIf_miss env ["["] w7 eq bq (by rw [hb7]; exact hte) (by rw [heq]; decide)
+      obtain ⟨w9, c9, hi9, hb9, hs9, _, _⟩ := step_tokenIf_hit env ["="] w8 t8 bq ht8 (by rw [hty8, heq]; decide)
+      obtain ⟨wd, res, td, hid, hbd, htvd, hsd, hres⟩ := consumeValueUntil_stops env [",", ")"] _ htl vals rfl sep
+        (by rcases hsep with h | h <;> (rw [h]; decide)) F F [] w9 bv b' (by rw [hb9]; exact hyv) htsep hFv hFv
+      have hcv : createValue res = valueOf vals := createValue_eq res vals (by simpa using hres)
+      have htyT : td.type = sep.type := congrArg Prod.fst htvd
+      have hvT : td.value = sep.value := congrArg Prod.snd htvd
+      have htd : tokenEofOk env.cfg wd.buf = .ok (some td, b') := by
+        rw [hbd]; exact tokenEofOk_returnToken env.cfg td b' (by rw [htyT]; exact tokenEofOk_not_discard htsep)
+      have hcvu : interp env (consumeValueUntil (F + 1) [] [",", ")"]) w9 = (wd, .ok res) := hid
+      refine ⟨logged env wd "parameter", td, ?_, ?_, by rw [logged_buf']; exact htd, htyT, hvT⟩
+      · have hc7v : c7.value = p.name.value := by rw [hv7, hv6, hv5, hv4, hnv']
+        unfold parseParameterStep
+        simp only [bind, interp_bind, pure, interp, hi1, hty1, hft, (by decide : ("NAME" = "auto") = False), ↓reduceIte,
+          core_parseType, hi2, validate_empty]
+        simp only [↓reduceIte, bind, interp_bind, hi3, pure, interp, parseCvPtr, core_parseCvPtrOrFn, hi4, hfn, Bool.false_eq_true,
+          hi5, Option.isSome_none, hi6, hi7, Option.map_some, hi8, hi9, hcvu, hcv, P.debugPrint, logged, hc7v]
+      · exact (((((((((hs1.butLog.trans hs2).trans hs3.butLog).trans hs4.butLog).trans hs5.butLog).trans hs6.butLog).trans hs7.butLog).trans
+          hs8.butLog).trans hs9.butLog).trans hsd.butLog).trans (logged_butLog env wd _)
+
 /-- the parameter a written item declares -/
 def PItem.param (p : PItem) (ty : DType) : Param := .mk ty (some p.name.value) none false
 
